@@ -413,4 +413,256 @@ theorem Vm.execAllWithAttrs_adds (vm : Vm) (m : AttributeMatcher) (ctx ctx' : Ex
         · exact Or.inl (Or.inl ⟨a, by simpa [AddressRange.addrs] using ha, hh⟩)
         · exact Or.inl (Or.inr ⟨r, hr, a, ha, hh⟩)
         · exact Or.inr ⟨r, hr, a, ha, hh⟩
+
+/-! ## the denotation of a program on the induced tree -/
+
+/-- a set of (address, branch of the instruction there) -/
+abbrev ActSet := Nat → ExecutionBranch → Prop
+
+/-- the instruction at `a` exists and matches element `e`; `b` is its branch -/
+def holdsElem (prog : Program) (nth : Bool) (e : Elem) (a : Nat) (b : ExecutionBranch) : Prop :=
+  ∃ i, prog.instructions[a]? = some i ∧ i.exec (stateOf nth e) e.tag.name (matcherOf e) = .ok (some b)
+
+/-- Instructions activated at element `e`, given the activated sets of its ancestors (parent first):
+    the instruction matches `e` and sits in the entry points, in a `jumps` range of an instruction
+    activated at the parent, or in a `hereditary_jumps` range of one activated at some ancestor. -/
+def actOf (prog : Program) (nth : Bool) (e : Elem) (ancActs : List ActSet) : ActSet := fun a b =>
+  holdsElem prog nth e a b ∧
+    (a ∈ prog.entryPoints.addrs
+      ∨ (∃ S, ancActs.head? = some S ∧ ∃ a' b' r, S a' b' ∧ b'.jumps = some r ∧ a ∈ r.addrs)
+      ∨ (∃ S ∈ ancActs, ∃ a' b' r, S a' b' ∧ b'.hereditaryJumps = some r ∧ a ∈ r.addrs))
+
+def ancActs (prog : Program) (nth : Bool) : List Elem → List ActSet
+  | [] => []
+  | p :: anc => actOf prog nth p (ancActs prog nth anc) :: ancActs prog nth anc
+
+/-- instructions activated at `e` whose ancestors are `anc` (parent first) -/
+def Act (prog : Program) (nth : Bool) (e : Elem) (anc : List Elem) : ActSet :=
+  actOf prog nth e (ancActs prog nth anc)
+
+theorem ancActs_drop (prog nth) : ∀ (anc : List Elem) (n : Nat),
+    ancActs prog nth (anc.drop n) = (ancActs prog nth anc).drop n := by
+  intro anc
+  induction anc with
+  | nil => intro n; simp [ancActs]
+  | cons p anc ih =>
+    intro n
+    cases n with
+    | zero => rfl
+    | succ n => simp [ancActs, ih]
+
+theorem ancActs_length (prog nth) (anc : List Elem) : (ancActs prog nth anc).length = anc.length := by
+  induction anc with
+  | nil => rfl
+  | cons p anc ih => simp [ancActs, ih]
+
+/-- a stack item carries exactly the jumps of the instructions activated at its element -/
+def ItemSem (item : StackItem) (S : ActSet) : Prop :=
+  (∀ r, r ∈ item.jumps ↔ ∃ a b, S a b ∧ b.jumps = some r) ∧
+  (∀ r, r ∈ item.hereditaryJumps ↔ ∃ a b, S a b ∧ b.hereditaryJumps = some r)
+
+def AllSem : List StackItem → List ActSet → Prop
+  | [], [] => True
+  | it :: its, S :: Ss => ItemSem it S ∧ AllSem its Ss
+  | _, _ => False
+
+theorem AllSem.drop : ∀ {its : List StackItem} {Ss : List ActSet} (n : Nat), AllSem its Ss →
+    AllSem (its.drop n) (Ss.drop n) := by
+  intro its
+  induction its with
+  | nil => intro Ss n h; cases Ss <;> simp_all [AllSem]
+  | cons it its ih =>
+    intro Ss n h
+    cases Ss with
+    | nil => simp [AllSem] at h
+    | cons S Ss =>
+      cases n with
+      | zero => exact h
+      | succ n => exact ih n h.2
+
+theorem AllSem.mem_hj : ∀ {its : List StackItem} {Ss : List ActSet}, AllSem its Ss → ∀ r,
+    (∃ it ∈ its, r ∈ it.hereditaryJumps) ↔ (∃ S ∈ Ss, ∃ a b, S a b ∧ b.hereditaryJumps = some r) := by
+  intro its
+  induction its with
+  | nil => intro Ss h r; cases Ss <;> simp_all [AllSem]
+  | cons it its ih =>
+    intro Ss h r
+    cases Ss with
+    | nil => simp [AllSem] at h
+    | cons S Ss =>
+      have := ih h.2 r
+      simp only [List.mem_cons, exists_eq_or_imp, this, h.1.2 r]
+
+/-- `active_hereditary_jumps`: every entry is introduced at its depth and not shallower; every
+    hereditary jump of an open item is present. -/
+structure ActiveSem (items : List StackItem) (active : List (AddressRange × Nat)) : Prop where
+  sound : ∀ r d, (r, d) ∈ active → (∃ it, items[d]? = some it ∧ r ∈ it.hereditaryJumps) ∧
+    ∀ (d' : Nat) (it' : StackItem), d' < d → items[d']? = some it' → r ∉ it'.hereditaryJumps
+  complete : ∀ (d : Nat) (it : StackItem), items[d]? = some it → ∀ r ∈ it.hereditaryJumps, ∃ d', (r, d') ∈ active
+
+theorem ActiveSem.mem_ranges {items : List StackItem} {active : List (AddressRange × Nat)} (h : ActiveSem items active) (r : AddressRange) :
+    r ∈ active.map (·.1) ↔ ∃ it ∈ items, r ∈ it.hereditaryJumps := by
+  constructor
+  · intro hr
+    obtain ⟨⟨r', d⟩, hm, rfl⟩ := List.mem_map.mp hr
+    obtain ⟨⟨it, hit, hr⟩, _⟩ := h.sound r' d hm
+    exact ⟨it, List.mem_of_getElem? hit, hr⟩
+  · rintro ⟨it, hit, hr⟩
+    obtain ⟨d, hd⟩ := List.getElem?_of_mem hit
+    obtain ⟨d', hd'⟩ := h.complete d it hd r hr
+    exact List.mem_map.mpr ⟨(r, d'), hd', rfl⟩
+
+/-- the fold of `push_item` over the new item's hereditary jumps -/
+def pushActive (depth : Nat) (hj : List AddressRange) (act : List (AddressRange × Nat)) : List (AddressRange × Nat) :=
+  hj.foldl (fun act r => if act.any (fun a => a.1 == r) then act else act ++ [(r, depth)]) act
+
+theorem mem_pushActive (depth : Nat) : ∀ (hj : List AddressRange) (act : List (AddressRange × Nat)) (r d),
+    (r, d) ∈ pushActive depth hj act ↔
+      (r, d) ∈ act ∨ (d = depth ∧ r ∈ hj ∧ r ∉ act.map (·.1)) := by
+  intro hj
+  induction hj with
+  | nil => intro act r d; simp [pushActive]
+  | cons x xs ih =>
+    intro act r d
+    simp only [pushActive, List.foldl_cons] at ih ⊢
+    by_cases hx : (act.any fun a => a.1 == x) = true
+    · simp only [hx, if_true, ih]
+      have hx' : x ∈ act.map (·.1) := by
+        simp only [List.any_eq_true, beq_iff_eq] at hx
+        obtain ⟨a, ha, hax⟩ := hx
+        exact List.mem_map.mpr ⟨a, ha, hax⟩
+      constructor
+      · rintro (h | ⟨h1, h2, h3⟩)
+        · exact Or.inl h
+        · exact Or.inr ⟨h1, List.mem_cons_of_mem _ h2, h3⟩
+      · rintro (h | ⟨h1, h2, h3⟩)
+        · exact Or.inl h
+        · rcases List.mem_cons.mp h2 with h2 | h2
+          · subst h2; exact absurd hx' h3
+          · exact Or.inr ⟨h1, h2, h3⟩
+    · have hx' : x ∉ act.map (·.1) := by
+        intro hm
+        obtain ⟨a, ha, hax⟩ := List.mem_map.mp hm
+        exact hx (by simp only [List.any_eq_true, beq_iff_eq]; exact ⟨a, ha, hax⟩)
+      have hxf : (act.any fun a => a.1 == x) = false := by
+        cases hb : (act.any fun a => a.1 == x) with
+        | false => rfl
+        | true => exact absurd hb hx
+      simp only [hxf, Bool.false_eq_true, if_false, ih, List.mem_append, List.mem_singleton, Prod.mk.injEq,
+        List.map_append, List.map_cons, List.map_nil]
+      constructor
+      · rintro ((h | ⟨h1, h2⟩) | ⟨h1, h2, h3⟩)
+        · exact Or.inl h
+        · subst h1; subst h2; exact Or.inr ⟨rfl, List.mem_cons_self, hx'⟩
+        · exact Or.inr ⟨h1, List.mem_cons_of_mem _ h2, fun hm => h3 (Or.inl hm)⟩
+      · rintro (h | ⟨h1, h2, h3⟩)
+        · exact Or.inl (Or.inl h)
+        · by_cases hrx : r = x
+          · exact Or.inl (Or.inr ⟨hrx, h1⟩)
+          · rcases List.mem_cons.mp h2 with h2 | h2
+            · exact absurd h2 hrx
+            · exact Or.inr ⟨h1, h2, by
+                intro hm
+                rcases hm with hm | hm
+                · exact h3 hm
+                · exact hrx hm⟩
+
+theorem ActiveSem.push {items : List StackItem} {active : List (AddressRange × Nat)} (h : ActiveSem items active)
+    (item : StackItem) :
+    ActiveSem (items ++ [item]) (pushActive items.length item.hereditaryJumps active) := by
+  constructor
+  · intro r d hm
+    rcases (mem_pushActive _ _ _ _ _).mp hm with hold | ⟨hd, hr, hnew⟩
+    · obtain ⟨⟨it, hit, hrit⟩, hsh⟩ := h.sound r d hold
+      have hdlt : d < items.length := (List.getElem?_eq_some_iff.mp hit).1
+      refine ⟨⟨it, by rw [List.getElem?_append_left hdlt]; exact hit, hrit⟩, ?_⟩
+      intro d' it' hd' hit'
+      rw [List.getElem?_append_left (by omega)] at hit'
+      exact hsh d' it' hd' hit'
+    · subst hd
+      refine ⟨⟨item, by simp, hr⟩, ?_⟩
+      intro d' it' hd' hit' hrit'
+      rw [List.getElem?_append_left hd'] at hit'
+      obtain ⟨d'', hd''⟩ := h.complete d' it' hit' r hrit'
+      exact hnew (List.mem_map.mpr ⟨(r, d''), hd'', rfl⟩)
+  · intro d it hit r hr
+    by_cases hd : d < items.length
+    · rw [List.getElem?_append_left hd] at hit
+      obtain ⟨d', hd'⟩ := h.complete d it hit r hr
+      exact ⟨d', (mem_pushActive _ _ _ _ _).mpr (Or.inl hd')⟩
+    · have hlen : d < (items ++ [item]).length := (List.getElem?_eq_some_iff.mp hit).1
+      have hde : d = items.length := by simp at hlen; omega
+      subst hde
+      simp at hit; subst hit
+      by_cases hm : r ∈ active.map (·.1)
+      · obtain ⟨⟨r', d'⟩, hm', rfl⟩ := List.mem_map.mp hm
+        exact ⟨d', (mem_pushActive _ _ _ _ _).mpr (Or.inl hm')⟩
+      · exact ⟨items.length, (mem_pushActive _ _ _ _ _).mpr (Or.inr ⟨rfl, hr, hm⟩)⟩
+
+theorem ActiveSem.pop {items : List StackItem} {active : List (AddressRange × Nat)} (h : ActiveSem items active)
+    (idx : Nat) :
+    ActiveSem (items.take idx) (active.filter fun e => e.2 < idx) := by
+  constructor
+  · intro r d hm
+    simp only [List.mem_filter, decide_eq_true_eq] at hm
+    obtain ⟨hm, hd⟩ := hm
+    obtain ⟨⟨it, hit, hrit⟩, hsh⟩ := h.sound r d hm
+    refine ⟨⟨it, by rw [List.getElem?_take_of_lt hd]; exact hit, hrit⟩, ?_⟩
+    intro d' it' hd' hit'
+    rw [List.getElem?_take_of_lt (by omega)] at hit'
+    exact hsh d' it' hd' hit'
+  · intro d it hit r hr
+    have hd : d < idx := by
+      have := (List.getElem?_eq_some_iff.mp hit).1
+      simp at this; omega
+    rw [List.getElem?_take_of_lt hd] at hit
+    obtain ⟨d0, hd0⟩ := h.complete d it hit r hr
+    obtain ⟨_, hsh⟩ := h.sound r d0 hd0
+    have : d0 ≤ d := by
+      apply Nat.le_of_not_lt
+      intro hlt
+      exact hsh d it hlt hit hr
+    exact ⟨d0, by simp only [List.mem_filter, decide_eq_true_eq]; exact ⟨hd0, by omega⟩⟩
+
+/-- shape of `pop_up_to` on a stack that mirrors the tree state -/
+theorem StackInv.popUpTo_shape {s ts} (inv : StackInv s ts) (name : Bytes) {s' d}
+    (h : s.popUpTo name = .ok (s', d)) :
+    (s'.items = s.items ∧ s'.activeHereditaryJumps = s.activeHereditaryJumps ∧ ts.endTag name = ts) ∨
+    (∃ i, i < ts.open.length ∧ s'.items = s.items.take (s.items.length - 1 - i) ∧
+      s'.activeHereditaryJumps = s.activeHereditaryJumps.filter (fun e => e.2 < s.items.length - 1 - i) ∧
+      ts.endTag name = { ts with «open» := ts.open.drop (i + 1) }) := by
+  have hfind := findIdx?_reverse_items inv name
+  have hany : (s.openNameCounts.any fun e => e.1 == asciiLowerBytes name) = true ↔
+      (ts.open.findIdx? (fun o => localNameEq o.elem.tag.name name)).isSome = true := by
+    rw [any_key_iff inv.countsOk, inv.counts, nameKeyCount_pos_iff, hfind]
+  unfold Stack.popUpTo at h
+  unfold TreeState.endTag
+  cases hf : ts.open.findIdx? (fun o => localNameEq o.elem.tag.name name) with
+  | none =>
+    have h1 : (s.openNameCounts.any fun e => e.1 == asciiLowerBytes name) = false := by
+      cases hb : (s.openNameCounts.any fun e => e.1 == asciiLowerBytes name) with
+      | false => rfl
+      | true => rw [hf] at hany; simp [hb] at hany
+    have h2 : (ts.open.any fun o => localNameEq o.elem.tag.name name) = false := by
+      have := List.findIdx?_isSome (xs := ts.open) (p := fun o => localNameEq o.elem.tag.name name)
+      rw [hf] at this; simpa using this.symm
+    simp only [h1, Bool.not_false, if_true, pure, Except.pure, Except.ok.injEq, Prod.mk.injEq] at h
+    left
+    rw [← h.1]
+    exact ⟨rfl, rfl, by simp [h2]⟩
+  | some i =>
+    have h1 : (s.openNameCounts.any fun e => e.1 == asciiLowerBytes name) = true := by
+      rw [hany, hf]; rfl
+    have h2 : (ts.open.any fun o => localNameEq o.elem.tag.name name) = true := by
+      have := List.findIdx?_isSome (xs := ts.open) (p := fun o => localNameEq o.elem.tag.name name)
+      rw [hf] at this; simpa using this.symm
+    have hi : i < ts.open.length := (List.findIdx?_eq_some_iff_findIdx_eq.mp hf).1
+    rw [hf] at hfind
+    simp only [h1, Bool.not_true, Bool.false_eq_true, if_false, rposition, hfind, bind, Except.bind] at h
+    right
+    split at h
+    · cases h
+    · simp only [pure, Except.pure, Except.ok.injEq, Prod.mk.injEq] at h
+      rw [← h.1]
+      exact ⟨i, hi, rfl, rfl, by simp [h2, closeUpTo_eq_drop name ts.open i hf]⟩
 end LolHtml.SelVM
